@@ -6,7 +6,7 @@ V = os.path.abspath(os.path.join(os.path.dirname(__file__), ".."))
 NOTE = ("Trusted: Coq 8.16.1 kernel/coqc and vm_compute (no native_compute); no axioms (Print Assumptions of every property "
         "theorem is checked to be 'Closed under the global context' on every run; the one exception is Props/C03float.v, which uses Flocq over Coq's reals "
         "and depends on the standard library's ClassicalDedekindReals.sig_forall_dec, sig_not_dec, FunctionalExtensionality.functional_extensionality_dep and Classical_Prop.classic); the translators py2gallina.py (arithmetic kernel), py2gallina_cache.py (cache decisions), "
-        "py2gallina_revise.py (recursion of ReviseAnno over data frames: its table of pandas idioms), py2gallina_guards.py (refusal guards as boolean functions), py2gallina_reader.py (loading protocol of DensityData over symbolic file names), py2gallina_writers.py (writers of the intermediates as file-action lists), py2gallina_store.py (constructor of the density store over h5py's require_dataset), py2gallina_overlap.py (the loop that fills the overlap arrays, as an assignment log), py2gallina_merge.py (recogniser of MergeData's summation: parameter sets, slices, labels, the triple loop, as a density-array log) and py2gallina_cf.py (queue/event loops as interaction programs); the "
+        "py2gallina_revise.py (recursion of ReviseAnno over data frames: its table of pandas idioms), py2gallina_guards.py (refusal guards as boolean functions), py2gallina_reader.py (loading protocol of DensityData over symbolic file names), py2gallina_writers.py (writers of the intermediates as file-action lists), py2gallina_store.py (constructor of the density store over h5py's require_dataset), py2gallina_overlap.py (the loop that fills the overlap arrays, as an assignment log), py2gallina_merge.py (recogniser of MergeData's summation: parameter sets, slices, labels, the triple loop, as a density-array log), py2gallina_lookup.py (get_specific_slice, its verifications and index dictionaries over the label lists) and py2gallina_cf.py (queue/event loops as interaction programs); the "
         "correspondence harness (generators, drivers, abstraction, float rule); CPython/pandas/numpy/h5py. "
         "Modelled, not verified: int32/float32 narrowing, pandas/h5py semantics (tied by execution).")
 
@@ -54,9 +54,9 @@ CHECKS = {
         text="Theorems c07_total_ge_group/total_le_sum/order_le_sum_supers/super_le_order; every cell of every generated output checked for the four relations on reconstructed counts, plus model correspondence; the check also builds Props/C01code.v and Props/C01merge.v (translated loop of OverlapWorker.calculate; translated MergeData.sum: the mask of a group selects the TEs whose column equals the group's NAME) and runs the unit differential of the translated summation against the real MergeData.sum.",
         design="DESIGN.md 6 C07"),
     "C08": dict(
-        technique="Coq proof (array position <-> labels: first/last-occurrence index functions return the labelled cell; genes of a file) + exhaustive queries through the real reader and table helpers",
+        technique="Coq proof (array position <-> labels: first/last-occurrence index functions return the labelled cell; genes of a file) + get_specific_slice, its verifications and index dictionaries translated from /repo on every run and proved equal to the label-level specification, composed with the translated MergeData.sum + exhaustive queries through the real reader and table helpers",
         text="Theorems c08_lookup/unknown/table/bijection/genes over the layout + reader model; every (gene, group, window, direction) query of every generated file through DensityData + get_specific_slice "
-             "and the add_* table helpers (gene table in its own row order) compared with the array cell of the labels and with the C01 value; group names differing by case / non-ASCII; the check also builds Props/C01code.v (translated loop of OverlapWorker.calculate: the row at gene index i, window index j belongs to names[i], windows[j]; nothing outside the index ranges is assigned) and Props/C01merge.v (translated MergeData.sum: the density cell at group index t, window index j, gene index i belongs to the group, window and gene of those names).",
+             "and the add_* table helpers (gene table in its own row order) compared with the array cell of the labels and with the C01 value; group names differing by case / non-ASCII; the check also builds Props/C01code.v (translated loop of OverlapWorker.calculate: the row at gene index i, window index j belongs to names[i], windows[j]; nothing outside the index ranges is assigned) and Props/C01merge.v (translated MergeData.sum: the density cell at group index t, window index j, gene index i belongs to the group, window and gene of those names) and Props/C08code.v (c08_code_slice / c08_code_refused / c08_code_lookup: the translated get_specific_slice selects, by TE name, window value, direction and gene name, exactly the cell of those labels, and refuses everything else); unit differential of the translated lookup against the real function on label layouts with repeated labels and invalid queries.",
         design="DESIGN.md 6 C08"),
     "C09": dict(
         technique="Coq proof (swap of first-occurrence columns for duplicate-free minus names = strand-aware view, induction over the name list) + _swap_strand_vals / _index_of_gene / DensityData.__init__ translated from /repo on every run and proved equal to the model + column-by-column comparison on real files",
